@@ -234,3 +234,108 @@ impl AlphaRunsHook {
         )
     }
 }
+
+/// Which `wide` backend this build selected: 0 scalar fallback, 1 SSE2, 2 SSE4.1, 3 AVX, 4 AVX2.
+pub fn wide_config() -> u32 {
+    if cfg!(all(feature = "simd", target_feature = "avx2")) {
+        4
+    } else if cfg!(all(feature = "simd", target_feature = "avx")) {
+        3
+    } else if cfg!(all(feature = "simd", target_feature = "sse4.1")) {
+        2
+    } else if cfg!(all(feature = "simd", target_feature = "sse2")) {
+        1
+    } else {
+        0
+    }
+}
+
+/// One `wide::f32x8` operation on raw lanes (bit patterns out).
+/// ops: 0 min 1 max 2 cmp_eq 3 cmp_ne 4 cmp_lt 5 cmp_le 6 cmp_gt 7 cmp_ge 8 floor 9 round 10 round_int
+///      11 trunc_int 12 recip_fast 13 recip_sqrt 14 sqrt 15 abs 16 add 17 sub 18 mul 19 div 20 a.cmp_lt(b).blend(a, b)
+///      21 normalize 22 fract 23 i32 -> f32 (to_f32x8 of the bit-cast lanes)
+pub fn wide_f32x8(op: u32, a: [f32; 8], b: [f32; 8]) -> [u32; 8] {
+    use crate::wide::{f32x8, i32x8};
+    let (x, y) = (f32x8::from(a), f32x8::from(b));
+    let f = |v: f32x8| -> [u32; 8] {
+        let l: [f32; 8] = v.into();
+        let mut o = [0u32; 8];
+        for i in 0..8 {
+            o[i] = l[i].to_bits();
+        }
+        o
+    };
+    let g = |v: i32x8| -> [u32; 8] {
+        let l: [i32; 8] = v.into();
+        let mut o = [0u32; 8];
+        for i in 0..8 {
+            o[i] = l[i] as u32;
+        }
+        o
+    };
+    match op {
+        0 => f(x.min(y)),
+        1 => f(x.max(y)),
+        2 => f(x.cmp_eq(y)),
+        3 => f(x.cmp_ne(y)),
+        4 => f(x.cmp_lt(y)),
+        5 => f(x.cmp_le(y)),
+        6 => f(x.cmp_gt(y)),
+        7 => f(x.cmp_ge(y)),
+        8 => f(x.floor()),
+        9 => f(x.round()),
+        10 => g(x.round_int()),
+        11 => g(x.trunc_int()),
+        12 => f(x.recip_fast()),
+        13 => f(x.recip_sqrt()),
+        14 => f(x.sqrt()),
+        15 => f(x.abs()),
+        16 => f(x + y),
+        17 => f(x - y),
+        18 => f(x * y),
+        19 => f(x / y),
+        20 => f(x.cmp_lt(y).blend(x, y)),
+        21 => f(x.normalize()),
+        22 => f(x.fract()),
+        23 => f(x.to_i32x8_bitcast().to_f32x8()),
+        _ => [0; 8],
+    }
+}
+
+/// The same operations on `wide::f32x4` (ops 0..=20).
+pub fn wide_f32x4(op: u32, a: [f32; 4], b: [f32; 4]) -> [u32; 4] {
+    use crate::wide::{f32x4, i32x4};
+    let (x, y) = (f32x4::from(a), f32x4::from(b));
+    let f = |v: f32x4| -> [u32; 4] {
+        let l: [f32; 4] = v.into();
+        [l[0].to_bits(), l[1].to_bits(), l[2].to_bits(), l[3].to_bits()]
+    };
+    let g = |v: i32x4| -> [u32; 4] {
+        let l: [i32; 4] = v.into();
+        [l[0] as u32, l[1] as u32, l[2] as u32, l[3] as u32]
+    };
+    match op {
+        0 => f(x.min(y)),
+        1 => f(x.max(y)),
+        2 => f(x.cmp_eq(y)),
+        3 => f(x.cmp_ne(y)),
+        4 => f(x.cmp_lt(y)),
+        5 => f(x.cmp_le(y)),
+        6 => f(x.cmp_gt(y)),
+        7 => f(x.cmp_ge(y)),
+        8 => f(x.floor()),
+        9 => f(x.round()),
+        10 => g(x.round_int()),
+        11 => g(x.trunc_int()),
+        12 => f(x.recip_fast()),
+        13 => f(x.recip_sqrt()),
+        14 => f(x.sqrt()),
+        15 => f(x.abs()),
+        16 => f(x + y),
+        17 => f(x - y),
+        18 => f(x * y),
+        19 => f(x / y),
+        20 => f(x.cmp_lt(y).blend(x, y)),
+        _ => [0; 4],
+    }
+}
